@@ -4,7 +4,11 @@ p = '/verif/known_findings.json'
 k = json.load(open(p))
 _, cmd, prop, status, commit, harness, label, sig, what = sys.argv
 e = {'property': prop, 'status': status, 'commit': commit, 'harness': harness, 'label': label, 'sig': json.loads(sig),
-     'what': ('fixed: ' if status == 'fixed' else '') + f'property={prop} ' + what}
+     'what': what}
+if status == 'fixed':
+    e['record'] = f'fixed: property={prop} {commit} {what}'
+else:
+    e.pop('commit')
 k['findings'].append(e)
 json.dump(k, open(p, 'w'), indent=1)
 print('added', e['what'][:100])
